@@ -957,6 +957,7 @@ func runC13(c *Ctx) {
 	ruleMergeTarget(c)
 	ruleMdiffPairs(c)
 	ruleSizeGuard(c, "mdiff")
+	ruleChunkLoopComplete(c)
 	ruleAllocBounded(c, "mdiff", false)
 
 	// ---- R-LR-MIRROR
